@@ -120,6 +120,11 @@ fn defs_in_domain(d: &Doc) -> bool {
     // the compared domain
     let mut names = std::collections::HashSet::new();
     let nops = d.ops().count();
+    if nops == 0 {
+        // a document of fragment definitions only is grammatical, but parse_query returns "the" operations and
+        // rejects it by design (and it is invalid: its fragments are unused)
+        return false;
+    }
     for o in d.ops() {
         match &o.name {
             None => {
@@ -628,7 +633,7 @@ pub fn run(ctx: &mut Ctx) {
                 an indented block string, a list type reference, or is a mutation on which the reference parser and the printer's intent differ (rejected near-miss); \
                 distinct by text".into();
     ctx.assume("don't-care: raw control characters other than TAB/LF/CR in source text, and variable-width \\u{...} escapes (2021 edition and current draft disagree)");
-    ctx.assume("outside the compared domain: duplicate operation/fragment names and anonymous operations next to others (rejected by design at parse time; invalid anyway), \
+    ctx.assume("outside the compared domain: documents without any operation, duplicate operation/fragment names and anonymous operations next to others (rejected by design at parse time; invalid anyway), \
                 duplicate root operation types in one schema definition, integer literals outside i64/u64 and `-0`, float literals that overflow f64");
     ctx.assume("selection-set nesting: <=64 must be accepted, >=66 rejected, 65 is a boundary band with no demanded verdict");
     ctx.assume("positions are C14's subject");
@@ -747,4 +752,6 @@ const REGRESSIONS: &[(&str, &str)] = &[
     ("sdl", "extend interface I implements J"),
     ("sdl", "\"d\" schema { query: Q }"),
     ("sdl", "typeFoo { a: Int }"),
+    ("exec", "{ f(a: [\"\"\"\"a\"\"]) }"),
+    ("sdl", "\"\"\"\"a\"\" type T { a: Int }"),
 ];
